@@ -8,7 +8,7 @@
    conversions are checked by the correspondence against the engine only. *)
 From Coq Require Import ZArith QArith String List Bool.
 Import ListNotations.
-From VTL Require Import Base.Val Model.Types Model.Cast Proofs.PromoteP Proofs.CastP Gen.Types Gen.Cast.
+From VTL Require Import Base.Val Base.Calendar Model.Types Model.Period Model.Cast Proofs.PromoteP Proofs.CastP Gen.Types Gen.Cast.
 
 (* "Null to any type: Null is compatible with every type" (Key rules); the doc tables have no Null row *)
 Definition doc_implicit (t : ty) : list ty := match t with TNull => all_ty | _ => doc_implicit_rows t end.
@@ -88,7 +88,8 @@ Proof. intros allows s d v Ha Hp Ht. rewrite (cast_op_allowed allows s d v Ha). 
    except String -> Integer/Number/Date/Duration (parsing) and Number -> String (see Model/Cast.v) *)
 Theorem C09_documented_total_pairs :
   forall s d, doc_allows s d = true -> modelled s d = true ->
-  total_pair s d = true \/ (s = TString /\ In d [TInteger; TNumber; TDate; TDuration]) \/ (s = TNumber /\ d = TString).
+  total_pair s d = true \/ (s = TString /\ In d [TInteger; TNumber; TDate; TDuration]) \/ (s = TNumber /\ d = TString) \/
+  (s = TTime /\ d = TPeriod).
 Proof. intros s d _ Hm. exact (total_or_parsing s d Hm). Qed.
 
 (* --- round trips, for ALL values (unbounded) *)
@@ -108,6 +109,27 @@ Proof. exact num_to_int_trunc. Qed.
 (* not every composition is a round trip *)
 Theorem C09_integer_boolean_integer_refuted : exists z, cast2 TInteger TBoolean TInteger (VInt z) <> Ok (VInt z).
 Proof. exact int_bool_int_not_roundtrip. Qed.
+
+(* --- Time -> Time_Period (the code's reading; calendar-exact): the answer is a period whose first and last day ARE the interval
+       (unbounded), and every valid period of the years 1900..2100 is recovered from its own dates (finite sweep, bound stated) *)
+Theorem C09_interval_period_sound : forall a b p, interval_period a b = Some p -> start_date p = a /\ end_date p = b.
+Proof. exact interval_period_sound. Qed.
+Theorem C09_interval_period_complete_1900_2100 :
+  forall y, In y (zrange 1900 201) -> forall p, In p (periods_of_year y) -> recovered p = true.
+Proof.
+  intros y Hy p Hp. pose proof interval_period_complete_1900_2100 as H.
+  rewrite forallb_forall in H. specialize (H y Hy). rewrite forallb_forall in H. exact (H p Hp).
+Qed.
+(* a week is labelled with its ISO week-year, also when its Monday lies in the previous calendar year *)
+Example C09_interval_period_year_boundaries :
+  interval_to_period_str "2019-12-30/2020-01-05" = Some "2020W1" /\ interval_to_period_str "2018-12-31/2019-01-06" = Some "2019W1" /\
+  interval_to_period_str "2020-12-28/2021-01-03" = Some "2020W53" /\ interval_to_period_str "2021-01-04/2021-01-10" = Some "2021W1" /\
+  interval_to_period_str "2015-12-28/2016-01-03" = Some "2015W53" /\ interval_to_period_str "2020-02-29/2020-02-29" = Some "2020D60" /\
+  interval_to_period_str "2020-12-31/2020-12-31" = Some "2020D366" /\ interval_to_period_str "2020-10-01/2020-12-31" = Some "2020Q4" /\
+  interval_to_period_str "2020-07-01/2020-12-31" = Some "2020S2" /\ interval_to_period_str "2021-02-01/2021-02-28" = Some "2021M2" /\
+  interval_to_period_str "2020-01-01/2020-12-31" = Some "2020" /\ interval_to_period_str "2020-01-07/2020-01-13" = None /\
+  interval_to_period_str "2020-01-01/2021-12-31" = None.
+Proof. vm_compute. repeat split. Qed.
 
 (* --- dataset level: the measure is renamed to COMP_NAME_MAPPING[dst] unless dst is in IMPLICIT[src]; this IS what the real
        Cast.dataset_validation answers on all 81 pairs (None = the call raises) *)
@@ -194,6 +216,8 @@ Print Assumptions C09_roundtrip_boolean_string_boolean.
 Print Assumptions C09_roundtrip_integer_number_integer.
 Print Assumptions C09_number_to_integer_truncates.
 Print Assumptions C09_integer_boolean_integer_refuted.
+Print Assumptions C09_interval_period_sound.
+Print Assumptions C09_interval_period_complete_1900_2100.
 Print Assumptions C09_cast_rename_rule.
 Print Assumptions C09_rename_names_documented.
 Print Assumptions C09_rename_rule_documented.
